@@ -41,6 +41,7 @@ def plan(tier, seed):
     shards += [{"kind": "manager", "maxlen": wl, "mod": 8, "rem": k, "full": tier != "quick"} for k in range(8)]
     shards.append({"kind": "calibration"})
     shards.append({"kind": "dst"})
+    shards.append({"kind": "restart"})
     return shards
 
 
@@ -120,6 +121,10 @@ def judge_manager(events, cfg, ctx, case) -> int:
             lb = slp if within else 0
             pending = ("loss", t, lb, max(backoff_ref.delay(n_fail, mx), slp))
             ctx.count("losses_within_threshold" if within else "losses_outside_threshold")
+        elif kind == "close_called" and pending is not None:
+            # the application stopped the manager: nothing is due any more, but whenever the same manager is started again the pause
+            # that was running still has to be honoured
+            pending = (pending[0], pending[1], pending[2], float("inf"))
         elif kind == "horizon" and pending is not None:
             pk, pt, lo, hi = pending
             if t - pt > hi + SLACK:
@@ -128,7 +133,45 @@ def judge_manager(events, cfg, ctx, case) -> int:
     return judged
 
 
-def run_manager_scenario(word, lifetimes, cfg, ctx, shim=True):
+def run_restart_scenarios(ctx) -> None:
+    """close() in the middle of a back-off / breaker pause, connect_loop() again on the same manager shortly afterwards: the first
+    attempt of the new loop still comes no sooner than the pause allows."""
+    n = 0
+    for cfg in CONFIGS:
+        for word, lifetimes in (([0], []), ([0, 0], []), ([0, 0, 0], []), ([0, 0, 0, 0, 0], []), ([1, 0, 0], [2.0]), ([1, 1], [1.0, 1.0]), ([1, 1, 0], [0.5, 0.5]), ([0, 1, 1], [1.0, 1.0])):
+            base = run_manager_scenario(word, lifetimes, cfg, ctx)
+            evs = base["events"]
+            marks = [e for e in evs if e[2] in ("attempt_fail", "lost")]
+            starts = [e[0] for e in evs if e[2] == "attempt_start"]
+            if not marks:
+                continue
+            # the last failure / loss of the scripted word, and the attempt that followed it in the undisturbed run
+            k = len([o for o in word])
+            scripted = [e for e in marks if (e[2] == "attempt_fail" and e[3] < k) or e[2] == "lost"]
+            if not scripted:
+                continue
+            tm = scripted[-1][0]
+            nxt = min((t for t in starts if t > tm + 1e-9), default=None)
+            if nxt is None or nxt - tm < 0.5:
+                continue
+            for frac in (0.1, 0.5, 0.9):
+                for restart_after in (0.0, 0.05, (nxt - tm) * 0.2):
+                    res = run_manager_scenario(word, lifetimes, cfg, ctx, close_at=("time", tm + (nxt - tm) * frac), restart_after=restart_after)
+                    case = {"word": list(word), "lifetimes": list(lifetimes), "cfg": cfg, "close_at": tm + (nxt - tm) * frac, "restart_after": restart_after, "restart": True}
+                    if res["error"]:
+                        ctx.violation("C18:manager:scenario-error", f"restart scenario {word}: {res['error']}", case)
+                        continue
+                    kinds = [e[2] for e in res["events"]]
+                    if "loop_restarted" not in kinds:
+                        ctx.count("restart_scenarios_in_which_the_loop_did_not_return(C17)")
+                        continue
+                    judge_manager(res["events"], cfg, ctx, case)
+                    ctx.case(repr(("restart", word, lifetimes, sorted(cfg.items()), frac, restart_after)), True)
+                    n += 1
+    ctx.count("restart_after_close_scenarios", n)
+
+
+def run_manager_scenario(word, lifetimes, cfg, ctx, shim=True, close_at=None, restart_after=None):
     outcomes = [o if isinstance(o, str) else ("ok" if o else "fail") for o in word]
     word = [1 if str(o).endswith("ok") or o == 1 else 0 for o in word]
     lts = []
@@ -141,11 +184,19 @@ def run_manager_scenario(word, lifetimes, cfg, ctx, shim=True):
             lts.append(None)
     horizon = 30 + sum(l or 0 for l in lts) + sum(min(2 ** i, cfg.get("max_delay", 60)) for i in range(len(word) + 3)) + 12 * len(word)
     epoch = vloop.EPOCHS[(len(word) * 7 + sum(word)) % len(vloop.EPOCHS)]
-    res = vloop.run_scenario(outcomes, lts, horizon=min(horizon, 2000), config=cfg, default_outcome="fail", use_clock_shim=shim, track_tasks=False, epoch=epoch)
+    res = vloop.run_scenario(outcomes, lts, horizon=min(horizon, 2000), config=cfg, default_outcome="fail", use_clock_shim=shim, track_tasks=False, epoch=epoch,
+                             close_at=close_at, restart_after=restart_after, after_close=0.0 if restart_after is not None else 200.0)
     return res
 
 
 def run(shard, ctx):
+    try:
+        _run(shard, ctx)
+    finally:
+        vloop.report(ctx)
+
+
+def _run(shard, ctx):
     kind = shard["kind"]
     if kind == "strategy_exh":
         L = shard["L"]
@@ -194,6 +245,8 @@ def run(shard, ctx):
                     ctx.seen("time_zones", tz)
                     n += 1
         ctx.enumerated(n, n)
+    elif kind == "restart":
+        run_restart_scenarios(ctx)
     elif kind == "calibration":
         # two losses 100 virtual seconds apart with threshold 5: with a working clock substitution the second reconnect is immediate
         res = vloop.run_scenario(["ok", "ok", "ok"], [100.0, 100.0, None], horizon=400, config={}, default_outcome="ok")
@@ -258,6 +311,10 @@ def replay(case, ctx):
         judge_manager(res["events"], {}, ctx, case)
         return
     if "lifetimes" in case:
+        if case.get("restart"):
+            res = run_manager_scenario(tuple(case["word"]), case["lifetimes"], case["cfg"], ctx, close_at=("time", case["close_at"]), restart_after=case["restart_after"])
+            judge_manager(res["events"], case["cfg"], ctx, case)
+            return
         res = run_manager_scenario(tuple(case["word"]), case["lifetimes"], case["cfg"], ctx)
         judge_manager(res["events"], case["cfg"], ctx, case)
     else:
@@ -270,7 +327,7 @@ def finalize(agg, tier):
     reasons = []
     if c.get("strategy_words_enumerated", 0) != (2 ** L) * len(MAX_DELAYS):
         reasons.append(f"strategy enumeration incomplete: {c.get('strategy_words_enumerated', 0)} of {(2 ** L) * len(MAX_DELAYS)}")
-    for k in ("gaps_judged", "losses_within_threshold", "losses_outside_threshold", "failures_n5", "calibration_ok", "backoff_probes_while_connected", "manager_scenarios_with_slow_attempts", "dst_scenarios"):
+    for k in ("gaps_judged", "losses_within_threshold", "losses_outside_threshold", "failures_n5", "calibration_ok", "backoff_probes_while_connected", "manager_scenarios_with_slow_attempts", "dst_scenarios", "restart_after_close_scenarios"):
         if c.get(k, 0) == 0:
             reasons.append(f"monitor never observed '{k}'")
     return {"exhaustive": not reasons, "exhaustive_scope": f"strategy: all failure/reset words of length {L} x 6 max_delay values; manager: all ok/fail words up to length {8 if tier == 'quick' else 9} (quick: lifetime pattern and configuration assigned round-robin; thorough: x all 6 lifetime patterns x 3 configurations)"}, reasons
